@@ -38,7 +38,7 @@ def r28a(ctx, P):
     ctx.rule(rid, "FLOW: in Index::open_with_storage a Manifest obtained from Manifest::load reaches the InnerIndex value only after "
                   "a loop over its segments (iter_mut, no skipping path) stored directory::segment_paths(<derived from opts.path>, "
                   "<that segment's id>) into every SegmentMeta.paths; Manifest::load is called from nowhere else")
-    f = P.fn(OPEN)
+    f = P.inlined(OPEN, depth=1, keep=(N.MAN_LOAD, SEG_PATHS_FN))      # a re-rooting helper / a constructor helper are read in place
     if not ctx.anchor(rid, f, "Index::open_with_storage"):
         return
     ctx.saw(f)
@@ -171,6 +171,25 @@ def r28b(ctx, P):
             fl = sl.fields(root)
             ok = bool({"path", "root"} & fl) or (g.path in (N.INDEX + "::create_with_storage", N.INDEX + "::create") and 1 in sl.args(root)) \
                 or (g.path == N.INNER + "::manifest_path")
+            if not ok and g.vis != "Public" and g.kind != "closure":
+                # a private helper that gets the root as a parameter: every caller must pass a derived root
+                params = {k for k in sl.args(root) if 1 <= k <= g.arg_count}
+                callers_ok = bool(params)
+                ncall = 0
+                for q2, g2 in P.fns.items():
+                    if g2.crate != "searchlite_core" or is_test_or_bench(g2):
+                        continue
+                    for b2, t2 in g2.calls():
+                        if callee_of(t2) != g.path:
+                            continue
+                        ncall += 1
+                        sl2 = Slice(g2)
+                        for k in params:
+                            if k - 1 >= len(t2["args"]) or not ({"path", "root"} & sl2.fields(t2["args"][k - 1])):
+                                callers_ok = False
+                ok = callers_ok and ncall >= 1
+                if ok:
+                    fl = fl | {"path"}
             ctx.ob(rid, "%s:%s:root-of:%s" % (rid, g.short, cal.rsplit("::", 1)[1]), ok,
                    "root passed to %s in %s derives from the opened directory (%s)" % (cal.rsplit("::", 1)[1], g.short, sorted(fl & {"path", "root"}) or "path parameter")
                    if ok else "root passed to %s in %s does not derive from IndexOptions.path / InnerIndex.path" % (cal, g.short),
